@@ -173,10 +173,17 @@ def entry_points(rng):
         mp = (lambda n: lambda b: Case("pubkey", [n, hx(b)], "model"))(nm) if nm != "sr25519" else None
         E.append((sk.__name__ + ".FromBytes+PublicKey", "bytes", (lambda s: lambda b: s.FromBytes(b).PublicKey())(sk), [kb], mk))
         E.append((sk.__name__ + ".IsValidBytes", "bytes", sk.IsValidBytes, [kb], None))
-        E.append((pk.__name__ + ".FromBytes", "bytes", pk.FromBytes, [pub], mp))
-        E.append((pk.__name__ + ".IsValidBytes", "bytes", pk.IsValidBytes, [pub], None))
+        forms = [pub]
         if pt is not None:
-            E.append((pt.__name__ + ".FromBytes", "bytes", pt.FromBytes, [k.PublicKey().Point().RawEncoded().ToBytes(), k.PublicKey().Point().RawDecoded().ToBytes()], None))
+            P_ = k.PublicKey().Point()
+            dec_ = P_.RawDecoded().ToBytes()
+            forms += [P_.RawEncoded().ToBytes(), dec_, k.PublicKey().RawUncompressed().ToBytes(), b"\x04" + dec_, b"\x00" + dec_, dec_[::-1], dec_[32:] + dec_[:32],
+                      P_.X().to_bytes(32, "big") + P_.Y().to_bytes(32, "big"), P_.X().to_bytes(32, "little") + P_.Y().to_bytes(32, "little")]
+            forms = list(dict.fromkeys(forms))
+        E.append((pk.__name__ + ".FromBytes", "bytes", pk.FromBytes, forms, mp))
+        E.append((pk.__name__ + ".IsValidBytes", "bytes", pk.IsValidBytes, forms, None))
+        if pt is not None:
+            E.append((pt.__name__ + ".FromBytes", "bytes", pt.FromBytes, forms, None))
     # wallets
     mw = Monero.FromSeed(SEED32)
     sub = Substrate.FromSeed(SEED32, SubstrateCoins.KUSAMA)
@@ -210,8 +217,31 @@ ALNUM = "123456789ABCDEFGHJKLMNPQRSTUVWXYZabcdefghijkmnopqrstuvwxyz0OIl"
 WEIRD = ["", " ", "\x00", "\n", "é", "😀", "ǅ", "ß", "K", "İ", "²", "１", "퟿", "a" * 300, "1" * 500, "/", "//", "'", ":", "=", "-1", "0x", "m/", " "]
 
 
+def reencoded_truncations(s):
+    """structure-aware: if the text is a Base58Check or Bech32 string, its payload cut at EVERY length (and extended), re-encoded
+    with a valid checksum — damage that survives the text layer and reaches the field-splitting code"""
+    out = []
+    try:
+        p = Base58Decoder.CheckDecode(s)
+        out += [Base58Encoder.CheckEncode(p[:i]) for i in range(len(p) + 1)] + [Base58Encoder.CheckEncode(p + b"\x00"), Base58Encoder.CheckEncode(p + p)]
+    except Exception:  # noqa
+        pass
+    if "1" in s and s.rfind("1") > 0:
+        hrp = s[:s.rfind("1")]
+        try:
+            p = Bech32Decoder.Decode(hrp, s)
+            out += [Bech32Encoder.Encode(hrp, p[:i]) for i in range(1, len(p) + 1)] + [Bech32Encoder.Encode(hrp, p + b"\x00")]
+        except Exception:  # noqa
+            pass
+    return out
+
+
 def str_inputs(rng, seeds, n):
-    out = list(WEIRD)
+    """(must-run inputs, sampled inputs)"""
+    must = list(WEIRD) + list(seeds)
+    for s in seeds:
+        must += reencoded_truncations(s)
+    out = []
     for s in seeds:
         out.append(s)
         L = len(s)
@@ -229,11 +259,13 @@ def str_inputs(rng, seeds, n):
     for _ in range(n):
         k = rng.choice([1, 2, 3, 8, 20, 34, 52, 90, 111])
         out.append("".join(rng.choice(ALNUM + " /'hp:=.-") for _ in range(k)))
-    return out
+    return must, out
 
 
 def bytes_inputs(rng, seeds, n):
-    out = [b"", b"\x00", b"\xff", bytes(31), bytes(32), bytes(33), bytes(64), bytes(65), b"\xff" * 32, b"\xff" * 33, b"\xff" * 64, bytes(300)]
+    """(must-run inputs, sampled inputs)"""
+    must = [b"", b"\x00", b"\xff", bytes(31), bytes(32), bytes(33), bytes(64), bytes(65), b"\xff" * 32, b"\xff" * 33, b"\xff" * 64, bytes(300)] + list(seeds)
+    out = []
     for s in seeds:
         out.append(s)
         L = len(s)
@@ -244,7 +276,7 @@ def bytes_inputs(rng, seeds, n):
         out += [s + b"\x00", b"\x00" + s, s + s, s[::-1]]
     for _ in range(n):
         out.append(bytes(rng.randrange(256) for _ in range(rng.choice([1, 2, 16, 20, 31, 32, 33, 37, 64, 65, 96]))))
-    return out
+    return must, out
 
 
 def gen(rng, tier):
@@ -254,9 +286,10 @@ def gen(rng, tier):
     for name, kind, fn, seeds, model in eps:
         if model is None:
             continue
-        ins = str_inputs(rng, seeds, n) if kind == "str" else bytes_inputs(rng, seeds, n)
+        must, ins = str_inputs(rng, seeds, n) if kind == "str" else bytes_inputs(rng, seeds, n)
         if tier == "quick":
-            ins = ins[:24] + rng.sample(ins[24:], min(len(ins) - 24, 50))
+            ins = rng.sample(ins, min(len(ins), 50))
+        ins = must + ins
         for x in ins:
             try:
                 if kind == "str":
@@ -278,9 +311,10 @@ def relations(rng, tier, rpt):
     slow = []
     scrypt_budget = {"Bip38Decrypter.DecryptNoEc": 6, "Bip38Decrypter.DecryptEc": 6, "Bip38EcKeysGenerator.GeneratePrivateKey": 6}
     for name, kind, fn, seeds, model in eps:
-        ins = str_inputs(rng, seeds, n) if kind == "str" else bytes_inputs(rng, seeds, n)
+        must, ins = str_inputs(rng, seeds, n) if kind == "str" else bytes_inputs(rng, seeds, n)
         if tier == "quick":
-            ins = ins[:24] + rng.sample(ins[24:], min(len(ins) - 24, 120))
+            ins = rng.sample(ins, min(len(ins), 120))
+        ins = must + ins
         for x in ins:
             if name in scrypt_budget and x in seeds:
                 if scrypt_budget[name] <= 0:
